@@ -669,18 +669,29 @@ func PrintAllTypes() {
 func PrintTargetClassExtends() {
 	className := getTargetClass()
 
-	for classNode, parents := range base.ClassInheritanceMap {
-		if classNode.Class == className {
-			for _, parent := range parents {
-				switch parent.Class {
-				case "":
-					fmt.Println("Object")
-				default:
-					fmt.Println(parent.Class)
-				}
-			}
+	var candidates []base.ClassNode
 
-			return
+	for classNode := range base.ClassInheritanceMap {
+		if classNode.Class == className {
+			candidates = append(candidates, classNode)
+		}
+	}
+
+	if len(candidates) == 0 {
+		return
+	}
+
+	// the same class name can exist in several frames: pick one reproducibly
+	sort.Slice(candidates, func(i, j int) bool {
+		return candidates[i].Frame < candidates[j].Frame
+	})
+
+	for _, parent := range base.ClassInheritanceMap[candidates[0]] {
+		switch parent.Class {
+		case "":
+			fmt.Println("Object")
+		default:
+			fmt.Println(parent.Class)
 		}
 	}
 }
